@@ -2486,6 +2486,150 @@ static int32 validateCertsInner(psPool_t *pool, psX509Cert_t *subjectCerts,
     const matrixValidateCertsOptions_t *opts);
 
 /*
+    Match expectedName against the names of the leaf certificate: the
+    supported subjectAltName entries and, where the options allow it, the
+    subject commonName.  Returns PS_SUCCESS on a match (or when there is
+    nothing to match).  Otherwise PS_CERT_AUTH_FAIL_SUBJECT_FLAG is added to
+    authFailFlags, next to any flag that is already there, and authStatus
+    becomes PS_CERT_AUTH_FAIL_EXTENSION unless it already tells of a failure.
+ */
+static int32 checkExpectedName(psX509Cert_t *subjectCerts,
+    const char *expectedNameIn,
+    const matrixValidateCertsOptions_t *opts)
+{
+    char *expectedName = (char *) expectedNameIn;
+    x509GeneralName_t *n;
+    x509v3extensions_t *ext;
+    char ip[16];
+    int32 foundSupportedSAN;
+
+    if (expectedName == NULL ||
+        (opts->flags & VCERTS_FLAG_SKIP_EXPECTED_NAME_VALIDATION))
+    {
+        return PS_SUCCESS;
+    }
+    ext = &subjectCerts->extensions;
+    foundSupportedSAN = 0;
+    for (n = ext->san; n != NULL; n = n->next)
+    {
+        switch (n->id)
+        {
+        case GN_DNS:
+            foundSupportedSAN = 1;
+            if (opts->nameType == NAME_TYPE_ANY ||
+                opts->nameType == NAME_TYPE_HOSTNAME ||
+                opts->nameType == NAME_TYPE_SAN_DNS)
+            {
+                if (wildcardMatch((char *) n->data, expectedName) == 0)
+                {
+                    return PS_SUCCESS;
+                }
+            }
+            break;
+        case GN_EMAIL:
+            foundSupportedSAN = 1;
+            if (opts->nameType == NAME_TYPE_ANY ||
+                opts->nameType == NAME_TYPE_SAN_EMAIL)
+            {
+                if (opts->mFlags &
+                    VCERTS_MFLAG_SAN_EMAIL_CASE_INSENSITIVE_LOCAL_PART)
+                {
+                    if (matchEmail((char *) n->data, n->dataLen,
+                            expectedName, 0))
+                    {
+                        return PS_SUCCESS;
+                    }
+                }
+                else
+                {
+                    if (matchEmail((char *) n->data, n->dataLen,
+                            expectedName, 1))
+                    {
+                        return PS_SUCCESS;
+                    }
+                }
+            }
+            break;
+        case GN_IP:
+            foundSupportedSAN = 1;
+            if (opts->nameType == NAME_TYPE_ANY ||
+                opts->nameType == NAME_TYPE_SAN_IP_ADDRESS)
+            {
+                /* Only a 4-octet iPAddress is an IPv4 address; longer
+                   entries (IPv6) must not be compared by their
+                   first four octets. "255.255.255.255" needs
+                   15 characters plus the terminator. */
+                if (n->dataLen != 4)
+                {
+                    break;
+                }
+                Snprintf(ip, sizeof(ip), "%u.%u.%u.%u",
+                    (unsigned char) (n->data[0]),
+                    (unsigned char ) (n->data[1]),
+                    (unsigned char ) (n->data[2]),
+                    (unsigned char ) (n->data[3]));
+                ip[sizeof(ip) - 1] = '\0';
+                if (Strcmp(ip, expectedName) == 0)
+                {
+                    return PS_SUCCESS;
+                }
+            }
+            break;
+        case GN_OTHER:
+        case GN_X400:
+        case GN_DIR:
+        case GN_EDI:
+        case GN_URI:
+        case GN_REGID:
+            /* No support for these currently. */
+            break;
+        }
+    }
+
+    /*
+       Now check the subject CN, if necessary.
+
+       RFC 6125, Section 6.4.4:
+       "a client MUST NOT seek a match for a reference identifier
+       of CN-ID if the presented identifiers include a DNS-ID, SRV-ID,
+       URI-ID, or any application-specific identifier types supported
+       by the client."
+     */
+
+# ifdef ALWAYS_CHECK_SUBJECT_CN_IN_HOSTNAME_VALIDATION
+    if (wildcardMatch(subjectCerts->subject.commonName,
+            expectedName) == 0)
+    {
+        return PS_SUCCESS;
+    }
+# else
+    if (opts->nameType == NAME_TYPE_ANY ||
+        opts->nameType == NAME_TYPE_CN ||
+        opts->nameType == NAME_TYPE_HOSTNAME)
+    {
+        if (!foundSupportedSAN ||
+            (opts->mFlags & VCERTS_MFLAG_ALWAYS_CHECK_SUBJECT_CN))
+        {
+            if (wildcardMatch(subjectCerts->subject.commonName,
+                    expectedName) == 0)
+            {
+                return PS_SUCCESS;
+            }
+        }
+    }
+# endif     /* ALWAYS_CHECK_SUBJECT_CN_IN_HOSTNAME_VALIDATION */
+
+    psTraceErrr("Authentication failed: no matching subject\n");
+    subjectCerts->authFailFlags |= PS_CERT_AUTH_FAIL_SUBJECT_FLAG;
+    if (subjectCerts->authStatus == PS_CERT_AUTH_PASS ||
+        subjectCerts->authStatus == PS_FALSE)
+    {
+        subjectCerts->authStatus = PS_CERT_AUTH_FAIL_EXTENSION;
+    }
+    return PS_CERT_AUTH_FAIL_EXTENSION;
+}
+
+/*
     Public entry point. The chain is always evaluated up to the trust anchors,
     also when a certificate lower in the chain has a date, keyUsage or
     authorityKeyId problem, so that every certificate carries its authStatus
@@ -2525,10 +2669,8 @@ static int32 validateCertsInner(psPool_t *pool, psX509Cert_t *subjectCerts,
 {
 
     psX509Cert_t *ic, *sc;
-    x509GeneralName_t *n;
     x509v3extensions_t *ext;
-    char ip[16];
-    int32 rc, foundSupportedSAN, pathLen = 0;
+    int32 rc, pathLen = 0;
 
     /*
        Check for illegal option combinations.
@@ -2701,124 +2843,10 @@ static int32 validateCertsInner(psPool_t *pool, psX509Cert_t *subjectCerts,
             }
 
             /* Check the subject/altSubject. Should match requested domain */
-            if (expectedName == NULL ||
-                (opts->flags & VCERTS_FLAG_SKIP_EXPECTED_NAME_VALIDATION))
+            if (checkExpectedName(subjectCerts, expectedName, opts) < 0)
             {
-                return rc;
+                rc = subjectCerts->authStatus;
             }
-            foundSupportedSAN = 0;
-            for (n = ext->san; n != NULL; n = n->next)
-            {
-                switch (n->id)
-                {
-                case GN_DNS:
-                    foundSupportedSAN = 1;
-                    if (opts->nameType == NAME_TYPE_ANY ||
-                        opts->nameType == NAME_TYPE_HOSTNAME ||
-                        opts->nameType == NAME_TYPE_SAN_DNS)
-                    {
-                        if (wildcardMatch((char *) n->data, expectedName) == 0)
-                        {
-                            return rc;
-                        }
-                    }
-                    break;
-                case GN_EMAIL:
-                    foundSupportedSAN = 1;
-                    if (opts->nameType == NAME_TYPE_ANY ||
-                        opts->nameType == NAME_TYPE_SAN_EMAIL)
-                    {
-                        if (opts->mFlags &
-                            VCERTS_MFLAG_SAN_EMAIL_CASE_INSENSITIVE_LOCAL_PART)
-                        {
-                            if (matchEmail((char *) n->data, n->dataLen,
-                                    expectedName, 0))
-                            {
-                                return rc;
-                            }
-                        }
-                        else
-                        {
-                            if (matchEmail((char *) n->data, n->dataLen,
-                                    expectedName, 1))
-                            {
-                                return rc;
-                            }
-                        }
-                    }
-                    break;
-                case GN_IP:
-                    foundSupportedSAN = 1;
-                    if (opts->nameType == NAME_TYPE_ANY ||
-                        opts->nameType == NAME_TYPE_SAN_IP_ADDRESS)
-                    {
-                        /* Only a 4-octet iPAddress is an IPv4 address; longer
-                           entries (IPv6) must not be compared by their
-                           first four octets. "255.255.255.255" needs
-                           15 characters plus the terminator. */
-                        if (n->dataLen != 4)
-                        {
-                            break;
-                        }
-                        Snprintf(ip, sizeof(ip), "%u.%u.%u.%u",
-                            (unsigned char) (n->data[0]),
-                            (unsigned char ) (n->data[1]),
-                            (unsigned char ) (n->data[2]),
-                            (unsigned char ) (n->data[3]));
-                        ip[sizeof(ip) - 1] = '\0';
-                        if (Strcmp(ip, expectedName) == 0)
-                        {
-                            return rc;
-                        }
-                    }
-                    break;
-                case GN_OTHER:
-                case GN_X400:
-                case GN_DIR:
-                case GN_EDI:
-                case GN_URI:
-                case GN_REGID:
-                    /* No support for these currently. */
-                    break;
-                }
-            }
-
-            /*
-               Now check the subject CN, if necessary.
-
-               RFC 6125, Section 6.4.4:
-               "a client MUST NOT seek a match for a reference identifier
-               of CN-ID if the presented identifiers include a DNS-ID, SRV-ID,
-               URI-ID, or any application-specific identifier types supported
-               by the client."
-             */
-
-# ifdef ALWAYS_CHECK_SUBJECT_CN_IN_HOSTNAME_VALIDATION
-            if (wildcardMatch(subjectCerts->subject.commonName,
-                    expectedName) == 0)
-            {
-                return rc;
-            }
-# else
-            if (opts->nameType == NAME_TYPE_ANY ||
-                opts->nameType == NAME_TYPE_CN ||
-                opts->nameType == NAME_TYPE_HOSTNAME)
-            {
-                if (!foundSupportedSAN ||
-                    (opts->mFlags & VCERTS_MFLAG_ALWAYS_CHECK_SUBJECT_CN))
-                {
-                    if (wildcardMatch(subjectCerts->subject.commonName,
-                            expectedName) == 0)
-                    {
-                        return rc;
-                    }
-                }
-            }
-# endif     /* ALWAYS_CHECK_SUBJECT_CN_IN_HOSTNAME_VALIDATION */
-
-            psTraceErrr("Authentication failed: no matching subject\n");
-            subjectCerts->authFailFlags |= PS_CERT_AUTH_FAIL_SUBJECT_FLAG;
-            rc = subjectCerts->authStatus = PS_CERT_AUTH_FAIL_EXTENSION;
             return rc;
         }
         else if (rc == PS_MEM_FAIL)
@@ -2837,7 +2865,11 @@ static int32 validateCertsInner(psPool_t *pool, psX509Cert_t *subjectCerts,
             but a date, keyUsage or authorityKeyId test failed.  That is
             final: authStatus and authFailFlags of the subject cert describe
             the problem and must not be overwritten by trying other CAs.
+            The expected name is still looked for: a caller that tolerates
+            e.g. an expired certificate must learn from authFailFlags that
+            the certificate was issued for somebody else.
  */
+            (void) checkExpectedName(subjectCerts, expectedName, opts);
             return rc;
         }
         ic = ic->next;
